@@ -38,20 +38,25 @@ TRUSTED = [
 ASSUMPTIONS = ['position + size < 2^64 in Serializer/Deserializer (size_t wrap of pos_+need is not modelled)',
                'RawDataToHexStr length < 65536 (its uint16_t length parameter)',
                'std::isprint in the "C" locale; glibc answers 0 for negative char values',
-               'MD5 update lengths < 2^29 bytes in the correspondence runs (the 64-bit carry comparison for longer single '
-               'updates is modelled and has a counterexample theorem but is not executed)']
+               'MD5: generated correspondence cases use update lengths < 2^29 bytes; the single-update >= 512 MiB case (wrong digest '
+               'with the 64-bit carry comparison, C19_md5_count_counterexample, patch C19-05) is run only by '
+               '--replay props/C19/md5_big_update.ops, where the expected digest is python hashlib (the list model cannot '
+               'evaluate 2^29 bytes); Gen.md5CarryWide records which comparison is in the source']
 RULE = ('one case = 1..12 codec operations from props/C19/plugin.py gen(): encode/decode/round-trip ops on byte strings of '
         'length 0..70 (all 256 byte values), capacities exact/one-short/zero/roomy, 64-bit values around every length boundary '
         '±2, serializer field sequences, MD5 update splits, AES key/block pairs, plus a malformed stream; non-trivial = the case '
         'contains at least one decoder/parse op on invalid or boundary input, an exact-capacity buffer op, or a multi-piece MD5 / '
         'multi-field serializer op (tags in the B lines); distinct = distinct op text')
-LEVEL_TEXT = ('Lean 4 theorems over hand-written models of the nine codec sources: round trips for every input (Base64, scalable '
-              'integer, hex, serializer, URL), advertised sizes, no out-of-bounds outcome for every input and capacity, tables '
-              'extracted from the source equal to the standards (decide over the whole table), table-driven CRC = bitwise CRC, '
-              'checksums = one\'s-complement sum, MD5 split independence, AES S-box/ShiftRows inverses; tied to the code on every '
-              'run by differential execution under ASan+UBSan')
+LEVEL_TEXT = ('Lean 4 theorems over hand-written models of the nine codec sources, all for every input: round trips (Base64 both '
+              'decoders, scalable integer for every 64-bit value and capacity, hex strings all three readers, serializer for every '
+              'field sequence, URL both modes, AES-128 invcipher∘cipher for every key and block), advertised sizes, no out-of-bounds '
+              'outcome for every input and capacity (Base64, scalable integer, serializer), tables extracted from the source equal '
+              'to the standards (decide over whole tables), table-driven CRC-16/32 = bitwise CRC for every byte string and seed, '
+              'checksums = one\'s-complement sums, MD5 split independence for updates < 2^29 bytes (with the counter counterexample '
+              'beyond); tied to the code on every run by differential execution under ASan+UBSan')
 LEVEL_NOTE = ('trusted: Lean kernel, hand-written models + differential tie (coverage bounded by the generator, measured in '
-              'evidence), my transcription of the standards in Spec.lean; see theorem list for the parts left OPEN')
+              'evidence), my transcription of the standards in Spec.lean; MD5 and AES equality with the published algorithm beyond '
+              'the table theorems is by comparison with Spec.lean / python hashlib on every run, not a theorem')
 TECHNIQUE = 'Lean 4 proofs over executable codec models + regenerated tables + model/implementation correspondence check'
 DESIGN_REF = 'DESIGN.md §6 C19, §7 row 11'
 
